@@ -64,9 +64,11 @@ def log2BoundsFloat (W : Nat) (B : Nat) (signif : Int) (exp : Int) : Float32 × 
   else
     let (slb, sub) := log2BoundsNat W signif.natAbs
     let (blb, bub) := if isPow2 B then (let l := Float32.ofNat (bitLen B - 1); (l, l)) else log2BoundsPrim B
-    let e := Float32.ofInt exp
-    let (lb, ub) := if exp ≥ 0 then (slb + e * blb, sub + e * bub) else (slb + e * bub, sub + e * blb)
-    (nextDown lb, nextUp ub)
+    -- since /repo 378134e the sums are formed in f64 (`exponent as f64`), then rounded to f32 and widened
+    let e := Float.ofInt exp
+    let (lb, ub) := if exp ≥ 0 then (slb.toFloat + e * blb.toFloat, sub.toFloat + e * bub.toFloat)
+                    else (slb.toFloat + e * bub.toFloat, sub.toFloat + e * blb.toFloat)
+    (nextDown lb.toFloat32, nextUp ub.toFloat32)
 
 /-- rational `Repr::log2_bounds` of `num/den` (as stored): differences of the part bounds, widened
     outward by one ulp (since /repo e3b7f1c; before, the round-to-nearest differences were returned
@@ -216,7 +218,9 @@ def cmpLog2 (upper : Bool) (neg : Bool) (m : Nat) (e : Int) (num den : Nat) : Op
     let s : Int := if neg then -(m : Int) else m
     let (lhs, rhs) : Int × Int := if e ≥ 0 then (s * 2 ^ e.toNat, k) else (s, k * 2 ^ (-e).toNat)
     return some (if upper then rhs ≤ lhs else lhs ≤ rhs)
-  let (L, t) := log2Enclosure num den 320 72
+  -- digits needed: enough to get below the last bit of `v` (values next to 1 have tiny logarithms)
+  let T : Nat := if e < -40 then (-e).toNat + 40 else 72
+  let (L, t) := log2Enclosure num den (320 + 2 * T) T
   -- compare v·2^t with L and L+1:   v·2^t = s·m·2^(e+t)
   let s : Int := if neg then -(m : Int) else m
   let sh := e + t
